@@ -22,11 +22,18 @@ type AliasCase struct {
 	Identity  string   // caA (certificate for the address 127.0.0.1) | dns-localhost (certificate for the name localhost)
 	Endpoints []string // names of the one server, in configured order
 	ViaConf   bool
+	// V6: the server listens on the IPv6 loopback and its certificate is valid for ::1; the endpoint is configured
+	// as the bracketed literal "[::1]" (the spelling that works with a host:port join)
+	V6 bool `json:",omitempty"`
 }
 
 func execAlias(c AliasCase) (vh.Outcome, error) {
 	out := vh.Outcome{NonTrivial: true}
-	g, err := vh.StartCAGroup([]vh.CAServerSpec{{IP: "127.0.0.1", Identity: c.Identity, Behaviour: "sign", ClientAuth: "request", KeyText: string(ssh.MarshalAuthorizedKey(epCert(0)))}})
+	ip := "127.0.0.1"
+	if c.V6 {
+		ip = "::1"
+	}
+	g, err := vh.StartCAGroup([]vh.CAServerSpec{{IP: ip, Identity: c.Identity, Behaviour: "sign", ClientAuth: "request", KeyText: string(ssh.MarshalAuthorizedKey(epCert(0)))}})
 	if err != nil {
 		return out, nil
 	}
@@ -38,6 +45,9 @@ func execAlias(c AliasCase) (vh.Outcome, error) {
 		return out, vh.Errf("NewSigner failed for endpoints %v: %v", c.Endpoints, err)
 	}
 	rightName := map[string]string{"caA": "127.0.0.1", "dns-localhost": "localhost"}[c.Identity]
+	if c.V6 {
+		rightName = "[::1]"
+	}
 	genuine := false
 	for _, e := range c.Endpoints {
 		genuine = genuine || e == rightName
@@ -50,7 +60,7 @@ func execAlias(c AliasCase) (vh.Outcome, error) {
 	if perr := vh.Catch(func() { certs, _, serr = signer.Sign(ctx, req) }); perr != nil {
 		return out, vh.Errf("Sign crashed: %v", perr)
 	}
-	desc := fmt.Sprintf("one server on 127.0.0.1 whose certificate is valid for %q only, configured endpoints %v", rightName, c.Endpoints)
+	desc := fmt.Sprintf("one server on "+ip+" whose certificate is valid for %q only, configured endpoints %v", rightName, c.Endpoints)
 	calls := g.Servers[0].Calls()
 	if !genuine {
 		if serr == nil || len(calls) != 0 {
@@ -77,7 +87,11 @@ func TestC18Aliases(t *testing.T) {
 			cases = append(cases, AliasCase{Identity: id, Endpoints: eps, ViaConf: len(cases)%2 == 1})
 		}
 	}
+	// the IPv6 loopback, configured as a bracketed literal (skipped where the host has no ::1)
+	for _, eps := range [][]string{{"[::1]"}, {"127.0.0.1", "[::1]"}, {"[::1]", "[::1]"}} {
+		cases = append(cases, AliasCase{Identity: "caA", Endpoints: eps, V6: true, ViaConf: len(cases)%2 == 1})
+	}
 	vh.Enumerate(t, vh.Spec[AliasCase]{Property: "C18", Name: "TestC18Aliases", Exhaustive: true,
-		Rule: "one genuine-CA server on 127.0.0.1 whose certificate is valid either for the address 127.0.0.1 or for the name localhost only, configured under both names in both orders, under one name, and with a name repeated (12 points). Oracle: the entry whose name the certificate does not cover is a wrongly named server (never receives the request); if an entry with the covered name exists, in any position, Sign succeeds through it with exactly one request; otherwise Sign fails",
+		Rule: "one genuine-CA server on 127.0.0.1 whose certificate is valid either for the address 127.0.0.1 or for the name localhost only, configured under both names in both orders, under one name, and with a name repeated (12 points); plus a genuine server on the IPv6 loopback whose certificate covers ::1, configured as the bracketed literal [::1] alone, behind an address nobody serves with that certificate, and twice (3 points). Oracle: the entry whose name the certificate does not cover is a wrongly named server (never receives the request); if an entry with the covered name exists, in any position, Sign succeeds through it with exactly one request; otherwise Sign fails",
 		Exec: execAlias}, cases)
 }
